@@ -51,6 +51,8 @@ type effects struct {
 	emits, accumulates bool
 	global, book       []string
 	emitPos, accPos    string
+	feeds              string // position of a contribution to the receiver's accumulator/tree (Add, AddDeep)
+	nets               string // position of an arithmetic update m[k] = m[k] + v of a map of the receiver
 }
 
 // methodEffects explores one method and classifies what it writes.
@@ -105,6 +107,13 @@ func methodEffects(c *core.Ctx, rule string, fn *ssa.Function) (effects, bool) {
 				return rootOfLoc(loc, recv)
 			}
 		case *absint.Term:
+			if p.Op == "field" && len(p.Args) == 2 && recv != "" && p.Args[0].Key() == recv {
+				// a field of a receiver passed by value: maps and pointers in it are still the reporter's own state
+				if p.Args[1].Key() == `c:"db"` {
+					return "book"
+				}
+				return "recv"
+			}
 			if p.Op == "lookup" && len(p.Args) > 0 {
 				if loc := locOf(x, p.Args[0]); loc != "" {
 					r := rootOfLoc(loc, recv)
@@ -130,10 +139,20 @@ func methodEffects(c *core.Ctx, rule string, fn *ssa.Function) (effects, bool) {
 		}
 	}
 	x.Hooks.Store = func(x *absint.Exec, s *absint.State, in *ssa.Store, addr, val absint.Value) {
-		note(rootOf(x, addr), "store to "+addr.Key(), c.P.Pos(in.Pos()))
+		r := rootOf(x, addr)
+		if r == "recv" && configDerived(x, val, recv, 0) {
+			// a memo of something computed from the immutable configuration only (a compiled pattern, a flag
+			// that says it was computed): the same on every day, so not state that carries days over
+			return
+		}
+		note(r, "store to "+addr.Key(), c.P.Pos(in.Pos()))
 	}
 	x.Hooks.MapUpdate = func(x *absint.Exec, s *absint.State, in *ssa.MapUpdate, m, k, v absint.Value) {
-		note(rootOf(x, m), "map update of "+m.Key(), c.P.Pos(in.Pos()))
+		r := rootOf(x, m)
+		note(r, "map update of "+m.Key(), c.P.Pos(in.Pos()))
+		if t, ok := v.(*absint.Term); ok && r == "recv" && ef.nets == "" && (t.Op == "+" || t.Op == "-") && strings.Contains(t.Key(), "lookup(") {
+			ef.nets = c.P.Pos(in.Pos())
+		}
 	}
 	x.Hooks.Call = func(x *absint.Exec, s *absint.State, site ssa.CallInstruction, callee *ssa.Function, fnv absint.Value, args []absint.Value) (absint.Value, bool) {
 		if callee == nil {
@@ -148,7 +167,11 @@ func methodEffects(c *core.Ctx, rule string, fn *ssa.Function) (effects, bool) {
 			}
 		case isMethod(callee, core.LibPath, "Accumulator", "Add"), isMethod(callee, core.LibPath, "TreeNode", "AddDeep"), isMethod(callee, core.LibPath, "Elements", "Add"), isMethod(callee, core.LibPath, "TreeNode", "Add"):
 			if len(args) > 0 {
-				note(rootOf(x, args[0]), callee.Name()+" on "+args[0].Key(), pos)
+				r := rootOf(x, args[0])
+				note(r, callee.Name()+" on "+args[0].Key(), pos)
+				if r == "recv" && ef.feeds == "" {
+					ef.feeds = pos
+				}
 			}
 			return absint.Const{}, true
 		}
@@ -156,6 +179,44 @@ func methodEffects(c *core.Ctx, rule string, fn *ssa.Function) (effects, bool) {
 	}
 	x.Run(x.NewState(fn, nil, nil))
 	return ef, account(c, x, rule, fn) || true
+}
+
+// configDerived: v is built only from constants and loads of the receiver's
+// configuration (…·config·…), through pure calls.
+func configDerived(x *absint.Exec, v absint.Value, recv string, depth int) bool {
+	if depth > 8 {
+		return false
+	}
+	switch t := v.(type) {
+	case absint.Const:
+		return true
+	case absint.Sym:
+		loc := locOf(x, t)
+		return recv != "" && (strings.HasPrefix(loc, "L:"+recv+"·config·") || strings.HasPrefix(loc, "L:"+recv+"·config["))
+	case *absint.Iface:
+		return configDerived(x, t.V, recv, depth+1)
+	case *absint.Tuple:
+		for _, e := range t.Elems {
+			if !configDerived(x, e, recv, depth+1) {
+				return false
+			}
+		}
+		return true
+	case *absint.Term:
+		if t.Op == "field" && len(t.Args) == 2 && t.Args[0].Key() == recv {
+			return t.Args[1].Key() == `c:"config"`
+		}
+		if t.Op == "lookup" || t.Op == "has" || t.Op == "len" {
+			return false
+		}
+		for _, a := range t.Args {
+			if !configDerived(x, a, recv, depth+1) {
+				return false
+			}
+		}
+		return len(t.Args) > 0
+	}
+	return false
 }
 
 func rootOfLoc(loc, recv string) string {
@@ -221,6 +282,9 @@ func ruleReporterDiscipline(c *core.Ctx, rule string, only ...string) {
 			}
 		case pe.accumulates:
 			kind = "accumulating"
+			if fe.feeds != "" && pe.nets != "" {
+				bad = append(bad, "Process nets amounts in a map of its own ("+pe.nets+") and Flush feeds the accumulator from it ("+fe.feeds+"): amounts are held back and combined over the whole walk before they reach the positive/negative registers, so the report of a concatenated log is not the element-wise sum of the reports of its parts")
+			}
 		}
 		bad = uniq(bad)
 		if len(bad) == 0 {
